@@ -63,7 +63,7 @@ pub fn session(rng: &mut Rng) -> Generated {
         let a = rng.range(1, 50);
         let b = rng.range(1, 50);
         let times = rng.range(0, 3);
-        match rng.below(19) {
+        match rng.below(23) {
             0 => {
                 names.push("early-exit");
                 let limit = rng.range(0, 8);
@@ -345,6 +345,60 @@ pub fn session(rng: &mut Rng) -> Generated {
                         t = t,
                         a = a,
                         b = b % 10
+                    ),
+                );
+            }
+            19 | 20 => {
+                // a parameter / let variable of an activation that is live at the capture is
+                // assigned after the capture: re-entering must not roll the assignment back.
+                // The capture happens in a callee, so the bodies themselves contain no lambda.
+                names.push("local-mutation-since-capture");
+                reentry = true;
+                p(
+                    &mut forms,
+                    &format!(
+                        "(define lk{t} #f)
+                         (define ln{t} 0)
+                         (define (lcapture{t}) (call/cc (lambda (c) (set! lk{t} c) 'first)))
+                         (define (lcount{t} n) (lcapture{t}) (set! n (+ n 1)) n)
+                         (lcount{t} {a})
+                         (if (< ln{t} 3) (begin (set! ln{t} (+ ln{t} 1)) (lk{t} 'again)) (list 'stop ln{t}))
+                         (if (< ln{t} 3) (begin (set! ln{t} (+ ln{t} 1)) (lk{t} 'again)) (list 'stop ln{t}))
+                         (define (llet{t} z) (let ((v z) (w (list z))) (lcapture{t}) (set! v (* v 2)) (set-car! w (+ (car w) 1)) (list v w)))
+                         (set! ln{t} 0)
+                         (llet{t} {b})
+                         (if (< ln{t} 2) (begin (set! ln{t} (+ ln{t} 1)) (lk{t} 'again)) (list 'stop ln{t}))
+                         (if (< ln{t} 2) (begin (set! ln{t} (+ ln{t} 1)) (lk{t} 'again)) (list 'stop ln{t}))",
+                        t = t,
+                        a = a,
+                        b = b
+                    ),
+                );
+            }
+            21 | 22 => {
+                // the object handed to a continuation is the very object the call/cc expression
+                // yields: mutation through either reference is seen through the other
+                names.push("aggregate-through-k");
+                reentry = true;
+                p(
+                    &mut forms,
+                    &format!(
+                        "(define ak{t} #f)
+                         (define ap{t} (list {a} 2 3))
+                         (define av{t} (vector {b} 'v))
+                         (define aq{t} (call/cc (lambda (c) (set! ak{t} c) (list 'initial))))
+                         aq{t}
+                         (if (eq? (car aq{t}) 'initial) (ak{t} ap{t}) 'second-pass)
+                         (begin (set-car! aq{t} 'x) (set-cdr! (cdr ap{t}) '(tail)) (list ap{t} aq{t}))
+                         (define ar{t} (call/cc (lambda (c) (c av{t}))))
+                         (begin (vector-set! ar{t} 1 'changed) (list av{t} (eq? ar{t} av{t})))
+                         (define (amk{t}) (let ((n 0)) (lambda () (set! n (+ n 1)) n)))
+                         (define ag{t} (amk{t}))
+                         (define ah{t} (call/cc (lambda (c) (for-each (lambda (x) (if (procedure? x) (c x))) (list 1 ag{t} 2)) 'none)))
+                         (list (ah{t}) (ag{t}) (ah{t}) (eq? ah{t} ag{t}))",
+                        t = t,
+                        a = a,
+                        b = b
                     ),
                 );
             }
